@@ -138,7 +138,7 @@ def _sum_dense(a, ia):
     torch, _ = _imp()
     if not ia: return a[0].sum()
     if len(ia[0]) == 0: return a[0]
-    return torch.sum(a[0], dim=list(ia[0]))
+    return torch.sum(a[0], dim=list(ia[-1]))      # operators: ia = [index, dense axes (row and column mode of each pair)]
 def _dot_impl(a, ia):
     _, torchtt = _imp()
     return torchtt.dot(a[0], a[1]) if not ia else torchtt.dot(a[0], a[1], list(ia[0]))
